@@ -117,7 +117,7 @@ fn one(ctx: &mut Ctx, probe: Option<&str>, idx: u64) {
                     // find the first differing output component
                     let (a, b) = (v.to_vector().unwrap_or_default(), want.to_vector().unwrap_or_default());
                     let k = (0..a.len().min(b.len())).find(|i| a[*i] != b[*i]).unwrap_or(0);
-                    let fam = prog.ops.get(k).map(|x| x.0.clone()).unwrap_or_else(|| "nested".into());
+                    let fam = prog.out_families.get(k).cloned().unwrap_or_else(|| "nested".into());
                     ctx.violation(
                         &format!("C08|value_mismatch|{}", fam),
                         json!({"what": format!("instantiated context differs from per-operation instantiation at output component {}", k),
